@@ -226,6 +226,8 @@ impl<O: PackRecipient + 'static + ?Sized> ContentPackCreator<O> {
         mut content: Box<dyn InputReader>,
         comp_hint: CompHint,
     ) -> std::io::Result<ContentAddress> {
+        // The content is its whole reader, whatever has already been read from it.
+        content.rewind()?;
         let content_size = content.size();
         self.progress.content_added(content_size);
         let should_compress = self.detect_compression(content.as_mut(), comp_hint)?;
